@@ -1475,8 +1475,10 @@ func (c *codegen) Visit(node ast.Node) ast.Visitor {
 			}
 			c.emitCloneIfArray(typ)
 		}
-		// Do not swap for builtin functions.
-		if !isBuiltin && (f != nil && !isSyscall(f)) {
+		// Do not swap for builtin functions. A function value (a variable,
+		// a literal, a result of another call) takes its arguments the same
+		// way a declared function does.
+		if !isBuiltin && (f != nil && !isSyscall(f) || f == nil && (isFunc || isFuncValue)) {
 			typ, ok := c.typeOf(n.Fun).(*types.Signature)
 			if ok && typ.Variadic() && !n.Ellipsis.IsValid() {
 				// pack variadic args into an array only if last argument is not of form `...`
